@@ -3,7 +3,7 @@ from hypothesis import strategies as st
 import gen
 
 SCEN_FLAGS = {0: "gp_had_to_wait", 1: "concurrent_synchronize", 2: "nested_section", 3: "signal_inside_library", 4: "reg_during_gp",
-              5: "handler_section_ran", 6: "bp_arena_grew", 8: "quiescent_thread_spun_until_grace_periods_returned", 9: "herd_of_threads_registered_at_once",
+              5: "handler_section_ran", 6: "bp_arena_grew", 8: "quiescent_thread_spun_until_grace_periods_returned", 9: "herd_of_threads_registered_at_once", 10: "section_nested_beyond_a_power_of_two_depth",
               46: "mapping_grown_in_place_across_a_page",
               48: "futex_sleep", 49: "futex_wake_hit", 50: "delayed_store", 51: "store_forwarded", 52: "membarrier", 53: "fault_hit",
               54: "signal_run", 55: "cas_fail", 56: "mutex_block", 57: "stale_read"}
@@ -32,7 +32,9 @@ def confirm_hang(text, res, eng, factor=10):
     """A step-budget overrun is only reported as a hang if it persists with a 10x budget (DESIGN.md §2.6)."""
     if res["status"] != "budget":
         return "%s: %s" % (res["status"], res["msg"])
-    r2 = eng.run(text + "budget %d\n" % (60000 * factor))
+    import re
+    m = re.findall(r"^budget (\d+)$", text, re.M)
+    r2 = eng.run(text + "budget %d\n" % ((int(m[-1]) if m else 60000) * factor))
     if r2["status"] in TERMINATION_STATUSES:
         return "hang (persists with %dx step budget): %s: %s" % (factor, r2["status"], r2["msg"])
     return None
